@@ -8,6 +8,7 @@
    this set (cell edits, structural edits, paste, undo/redo, import) are monitored: the same
    predicate, extracted, judges the implementation's workbook after every step. *)
 From IronCalc Require Import Base.Prelude Eval.Spill Sheet.Wf Sheet.WfProofs.
+From IronCalc Require Sheet.Cols.
 
 Theorem C27_init : wf_workbook_b init = true.
 Proof. exact init_wf. Qed.
@@ -44,6 +45,31 @@ Theorem C27_spill_prepare :
   prepare_for_input uneval dflt p sh = Ok sh' -> spill_exact_b sh' = true /\ spill_full_b sh' = true.
 Proof. exact spill_clause_prepare. Qed.
 Print Assumptions C27_spill_prepare.
+
+(* the column-descriptor surgery of delete_columns (as repaired by 5240496: cases D and E push a
+   descriptor only when min <= max) keeps every well-formed layout well-formed, for every band *)
+Theorem C27_delete_columns_descriptors :
+  forall (start count : Z) (cs cs' : Sheet.Cols.cols),
+  Sheet.Cols.wf cs -> delete_columns_descrs start count cs = Ok cs' -> Sheet.Cols.wf cs'.
+Proof. exact delete_columns_descrs_wf. Qed.
+Print Assumptions C27_delete_columns_descriptors.
+
+(* insert_columns: only when no descriptor is pushed past the last column (the code checks the
+   cells' dimension, not the descriptors) ... *)
+Theorem C27_insert_columns_descriptors_partial :
+  forall (column count : Z) (cs cs' : Sheet.Cols.cols),
+  Sheet.Cols.wf cs -> 1 <= column ->
+  (forall c, In c cs -> column <= Sheet.Cols.c_max c -> Sheet.Cols.c_max c + count <= LAST_COLUMN) ->
+  insert_columns_descrs column count cs = Ok cs' -> Sheet.Cols.wf cs'.
+Proof. exact insert_columns_descrs_partial. Qed.
+Print Assumptions C27_insert_columns_descriptors_partial.
+
+(* ... otherwise not: finding F47 *)
+Theorem C27_insert_columns_descriptors_refuted :
+  exists cs column count cs', Sheet.Cols.wf_b cs = true /\ insert_columns_descrs column count cs = Ok cs' /\
+                              Sheet.Cols.wf_b cs' = false.
+Proof. exact insert_columns_descrs_refuted. Qed.
+Print Assumptions C27_insert_columns_descriptors_refuted.
 
 (* non-vacuity: the predicate rejects broken structure *)
 Example C27_rejects_duplicate_name :
